@@ -58,13 +58,27 @@ func (e *Engine) initTimeStubs() {
 				panic(killPath{"spin cut"})
 			}
 		}
+		if th.OthersStepped {
+			th.IdleSleeps = 0
+		} else {
+			th.IdleSleeps++
+			if th.IdleSleeps > 64 {
+				e.reportViolation(st, "hang", "a goroutine polls forever (time.Sleep loop) while no other goroutine can make progress: "+e.where(th), nil)
+				panic(killPath{"hang"})
+			}
+		}
 		th.OthersStepped = false
 		th.HasSlept = true
 		if th.Slept == nil {
 			th.Slept = tb.Int64(0)
 		}
-		th.Slept = tb.Add(th.Slept, d)
-		st.Clock = tb.Add(e.clock(st), d)
+		// accumulated sleep saturates at 4 s (keeps endless poll loops in a finite state space)
+		sum := tb.Add(th.Slept, d)
+		lim := tb.Int64(4000000000)
+		th.Slept = tb.Ite(tb.SLt(sum, lim), sum, lim)
+		if len(st.Timers) > 0 || st.Clock != nil {
+			st.Clock = tb.Add(e.clock(st), d)
+		}
 		return nil
 	}, func(e *Engine, st *State, th *Thread, args []Value) (bool, string) { return false, "sleep" })
 	e.stub("time.AfterFunc", func(e *Engine, st *State, th *Thread, c *callCtx) Value {
